@@ -107,6 +107,8 @@ type State struct {
 	decisions []int // fork choices taken (for partitioning)
 	pools   map[int][]Value // sync.Pool object id -> LIFO list
 	goDeferred []deferRec
+	lazyBase   []int // frame depths at which lazily scheduled goroutines were started (innermost last)
+	afterTimers []int // timer objects created by time.AfterFunc under the "@afterfunc": "fire" policy
 	notes   []string
 	violated bool // an assertion failed or a panic escaped on this path
 	completed bool // the harness function returned normally on this path
@@ -146,6 +148,8 @@ func (e *Engine) cloneState(st *State) *State {
 		}
 	}
 	n.goDeferred = append([]deferRec(nil), st.goDeferred...)
+	n.lazyBase = append([]int(nil), st.lazyBase...)
+	n.afterTimers = append([]int(nil), st.afterTimers...)
 	n.notes = append([]string(nil), st.notes...)
 	return n
 }
